@@ -90,7 +90,7 @@ package header
 //@ func (*hopByHopModifier).ModifyRequest
 //@ property C06 C01
 //@ requires req != nil && req.Header != nil
-//@ modifies req.Header[*], elems(string)
+//@ modifies req.Header[*], elems(string), delSet, witV, witJ
 //@ ensures result == nil
 //@ ensures forall k string :: isHopByHop(k) ==> !(k in req.Header)
 //@ ensures forall k string :: (k in req.Header) ==> old(k in req.Header) && req.Header[k] == old(req.Header[k])
@@ -98,7 +98,7 @@ package header
 //@ func (*hopByHopModifier).ModifyResponse
 //@ property C02
 //@ requires res != nil && res.Header != nil
-//@ modifies res.Header[*], elems(string)
+//@ modifies res.Header[*], elems(string), delSet, witV, witJ
 //@ ensures result == nil
 //@ ensures forall k string :: isHopByHop(k) ==> !(k in res.Header)
 //@ ensures forall k string :: (k in res.Header) ==> old(k in res.Header) && res.Header[k] == old(res.Header[k])
